@@ -13,6 +13,8 @@ import C4E.Distr1
 import C4E.Distributor
 import C4E.Bridge
 import C4E.Lemmas.DistrValidate
+import C4E.Lemmas.DistrFaithful
+import C4E.Props.C04
 namespace C4E.Props.C03
 open C4E C4E.Distr1
 
@@ -140,6 +142,53 @@ theorem validated_params_books (e : Distr.Env) (subs : List Distr.SubD) (hv : Di
     let r := payout ψ w1.main w1.states
     r.1 - sumRem r.2 = 0 ∧ allNonneg r.2 :=
   bridge_checked_block subs w fl ψ (Distr.cfgHyps_of_paramsValid e subs hv) hnn hu hbal
+
+/-! ### one sub-distributor of the code-tied multi-denomination model -/
+
+section FaithfulStep
+open C4E.Distr C4E.CoinList
+
+theorem remSum_eq (d : String) (l : List DState) : Props.C04.remSum d l = remSumF d l := by
+  induction l with
+  | nil => rfl
+  | cons s rest ih => simp only [Props.C04.remSum, remSumF, ih]
+
+theorem mainShares_zero (d : String) (x : DecCoins) : ∀ (l : List Distr.Share), (∀ sh ∈ l, sh.dest.type ≠ tMain) →
+    Props.C04.mainShares d x l = 0
+  | [], _ => rfl
+  | sh :: rest, h => by
+    unfold Props.C04.mainShares
+    have h1 : ¬ sh.dest.type = tMain := h sh (by simp)
+    simp only [h1, if_false, mainShares_zero d x rest (fun s hs => h s (by simp [hs]))]
+    rfl
+
+/-- **one sub-distributor execution of the code-tied model** (`PrepareCoinsToDistribute` followed by
+    `StartDistributionProcess`), every denomination, any configuration, any fault pattern:
+    with `k` MAIN entries among its sources,
+    `U' = (1 − k)·U − k·E + kept`, where `U = main × 10^18 − Σ remains`, `E` is the correction for an
+    empty main account (0 whenever the main account holds anything), and `kept` is what stays in main
+    for MAIN destinations — 0 when the sub-distributor has no MAIN destination. With one MAIN source and
+    no MAIN destination the books are closed: `U' = −E`. -/
+theorem faithful_sub_step (e : Env) (w w1 : Distr.World) (s : SubD) (x : DecCoins) (sts' : List DState)
+    (evs : List Distr.Event) (d : String)
+    (hp : prepareCoins e w (s.sources.filterMap id) = .ok (x, w1))
+    (hd : startDistribution w1.states x s = .ok (sts', evs))
+    (hne : ∀ a ∈ s.sources.filterMap id, a.type ≠ tMain → srcAddr e a ≠ some e.mainAddr) :
+    ∃ kept, UF e d { w1 with states := sts' }
+        = UF e d w - countMain (s.sources.filterMap id) * (UF e d w + EF e d w) + kept ∧
+      ((∀ sh ∈ s.shares, sh.dest.type ≠ tMain) → s.primary.type ≠ tMain → kept = 0) := by
+  have h1 := prepareCoins_U e w w1 _ x d hp hne
+  obtain ⟨pa, h2⟩ := Props.C04.faithful_allocation_conserves w1.states x s sts' evs hd d
+  rw [remSum_eq, remSum_eq] at h2
+  refine ⟨Props.C04.mainShares d x s.shares + (if s.primary.type = tMain then pa else 0), ?_, ?_⟩
+  · unfold UF at h1 ⊢
+    simp only []
+    omega
+  · intro hs hpm
+    rw [mainShares_zero d x s.shares hs]
+    simp [hpm]
+
+end FaithfulStep
 
 /-- full multi-denomination statement over the faithful model (target; see header). -/
 def books_step_full : Prop :=
